@@ -7,7 +7,9 @@ EXTENDS MsgBuilder, Json
 CONSTANTS Scenario,   \* "small": every call, short names + a maximal name, small capacity / limits
                       \* "big":   filler records that put names on both sides of 0x3FFF, 0xBFFF, 0xFFFF
                       \* "reply": the header written through header_mut(), start_answer /
-                      \*          start_error / request_axfr, OPT records that set an extended RCODE
+                      \*          start_error / request_axfr
+                      \* "optrc": OPT records that set an extended RCODE (OptBuilder::set_rcode writes
+                      \*          into the message header), with little room and a push limit
                       \* "all":   the calls of "small" and "reply" together (simulation)
                       \* "edge", "edgewide": after answer() and one filler record the message ends at
                       \*          one of the offsets around 0x3FFF / 0x4000; then every sequence of
@@ -68,16 +70,17 @@ EdgeFillers == {Op("UNK", 5, 0, e - 23) : e \in EdgeEnds}
 
 Small == Scenario \in {"small", "all"}
 Reply == Scenario \in {"reply", "all"}
+OptRc == Scenario = "optrc"
 
 Questions == IF Small
              THEN {Op("q", a, 0, 0) : a \in {1, 2, 5, 6}}
-             ELSE IF Edge \/ Reply THEN {}
+             ELSE IF Edge \/ Reply \/ OptRc THEN {}
              ELSE {Op("q", 3, 0, 0)}
 Records ==
   IF Small THEN
     {Op("A", 1, 0, 1), Op("A", 6, 0, 2), Op("NS", 4, 3, 0), Op("NS", 2, 1, 0),
      Op("MX", 3, 2, 10), Op("DN", 4, 1, 0), Op("NS", 6, 6, 0), Op("TXT", 5, 0, 129)}
-  ELSE IF Reply THEN {Op("A", 1, 0, 1)}
+  ELSE IF Reply \/ OptRc THEN {Op("A", 1, 0, 1)}
   ELSE IF Edge THEN
     {Op("NS", 3, 1, 0),        \* b.a.ex. NS a.ex.
      Op("A", 1, 0, 1),         \* a.ex.
@@ -92,14 +95,16 @@ Records ==
      Op("UNK", 5, 0, 32604),   \* from 32921: 65536, one too many for a stream target
      Op("NS", 3, 1, 0), Op("A", 3, 0, 1), Op("MX", 2, 3, 10)}
 Opts == IF Small THEN {Op("opt", 0, 0, 4)} ELSE {}
-\* OPT records that set an extended RCODE: 3 (header bits only), 19 (BADCOOKIE + 3...: upper bits 1, lower 3)
-OptRcs == IF Reply THEN {Op("optrc", 0, 0, 3), Op("optrc", 0, 0, 19)} ELSE {}
+\* OPT records that set an extended RCODE: 3 (header bits only) and 19 (upper bits 1, lower bits 3);
+\* the behaviours of this scenario are generated a second time with D_opt_rcode_sticks switched on
+OptRcs == IF OptRc THEN {Op("optrc", 0, 0, 3), Op("optrc", 0, 0, 19)} ELSE {}
 Gotos == IF Small THEN {Op("goto", 0, 0, s) : s \in 0..4}
          ELSE IF Reply THEN {Op("goto", 0, 0, 0), Op("goto", 0, 0, 4)}
+         ELSE IF OptRc THEN {Op("goto", 0, 0, 4)}
          ELSE {Op("goto", 0, 0, 2), Op("goto", 0, 0, 3)}
 \* header values: every bit set / a pattern with opcode 2, AA, RD, Z, CD, RCODE 3
 HdrVal(n) == IF n = 1 THEN <<255, 255, 255, 255>> ELSE <<18, 52, 21, 83>>
-Hdrs == IF Reply THEN {Op("hdr", 0, 0, 1), Op("hdr", 0, 0, 2)} ELSE {}
+Hdrs == IF Reply \/ OptRc THEN {Op("hdr", 0, 0, 1), Op("hdr", 0, 0, 2)} ELSE {}
 \* requests: header (ID, opcode 4 + RD + other bits that must not be copied / a plain query) and questions
 RqHdr(b) == IF b = 1 THEN <<171, 205, 167, 143>> ELSE <<0, 7, 0, 0>>
 QItem(a) == [k |-> "q", name |-> Name(a), qtype |-> 1, qclass |-> 1]
@@ -109,9 +114,10 @@ StartQs(c) == IF c.a = 3 THEN << [k |-> "q", name |-> Name(c.b), qtype |-> 252, 
               ELSE RqQs(c.b)
 StartRq(c) == IF c.a = 3 THEN <<0, 0, 0, 0>> ELSE RqHdr(c.b)
 Starts == IF Reply THEN {Op("start", a, b, 5) : a \in 1..2, b \in 1..2} \cup {Op("start", 3, 3, 0)}
+          ELSE IF OptRc THEN {Op("start", 1, 1, 5)}
           ELSE {}
 Limits == IF Small THEN {Op("limit", 0, 0, 60), Op("limit", 0, 0, 300), Op("clear", 0, 0, 0)}
-          ELSE IF Reply THEN {Op("limit", 0, 0, 40)}
+          ELSE IF Reply \/ OptRc THEN {Op("limit", 0, 0, 40)}
           ELSE IF Edge THEN {Op("limit", 0, 0, 16405)}   \* the shortest record fits once more, the others do not
           ELSE {Op("limit", 0, 0, 16400)}
 Others == IF Edge THEN {Op("rewind", 0, 0, 0)}
